@@ -283,6 +283,98 @@ func c10RefParse(b []byte) (tree any, ok bool) {
 	return tree, true
 }
 
+// c10Ord is a JSON object with its members in text order, repeated names included.
+type c10Ord []struct {
+	k string
+	v any
+}
+
+func c10ReadOrdered(dec *json.Decoder) (any, error) {
+	t, err := dec.Token()
+	if err != nil {
+		return nil, err
+	}
+	d, isDelim := t.(json.Delim)
+	if !isDelim {
+		return t, nil
+	}
+	switch d {
+	case '[':
+		a := []any{}
+		for dec.More() {
+			v, err := c10ReadOrdered(dec)
+			if err != nil {
+				return nil, err
+			}
+			a = append(a, v)
+		}
+		_, err := dec.Token()
+		return a, err
+	case '{':
+		o := c10Ord{}
+		for dec.More() {
+			kt, err := dec.Token()
+			if err != nil {
+				return nil, err
+			}
+			k, _ := kt.(string)
+			v, err := c10ReadOrdered(dec)
+			if err != nil {
+				return nil, err
+			}
+			o = append(o, struct {
+				k string
+				v any
+			}{k, v})
+		}
+		_, err := dec.Token()
+		return o, err
+	}
+	return nil, fmt.Errorf("unexpected delimiter %v", d)
+}
+
+var c10KnownMembers = map[string]bool{"id": true, "pubkey": true, "created_at": true, "kind": true, "tags": true, "content": true, "sig": true,
+	"ids": true, "authors": true, "kinds": true, "since": true, "until": true, "limit": true, "count": true, "approximate": true}
+
+func c10Resolve(t any, fold, first bool) any {
+	switch x := t.(type) {
+	case []any:
+		a := make([]any, len(x))
+		for i, e := range x {
+			a[i] = c10Resolve(e, fold, first)
+		}
+		return a
+	case c10Ord:
+		m := map[string]any{}
+		for _, p := range x {
+			k := p.k
+			if lk := strings.ToLower(k); fold && lk != k && c10KnownMembers[lk] {
+				k = lk
+			}
+			if _, dup := m[k]; dup && first {
+				continue
+			}
+			m[k] = c10Resolve(p.v, fold, first)
+		}
+		return m
+	}
+	return t
+}
+
+// c10RefAlternatives gives the other readings of a text with repeated member names or
+// member names in another letter case: JSON leaves open which of several members with one
+// name counts, and the statement does not fix how member names are matched. A decoded value
+// is "what the text supplies" if it fits one reading applied throughout.
+func c10RefAlternatives(b []byte) []any {
+	dec := json.NewDecoder(bytes.NewReader(b))
+	dec.UseNumber()
+	t, err := c10ReadOrdered(dec)
+	if err != nil {
+		return nil
+	}
+	return []any{c10Resolve(t, false, true), c10Resolve(t, true, false), c10Resolve(t, true, true)}
+}
+
 // c10IntOf: the integer a JSON number literal denotes, or nil when it is not an integer
 // (or too long to bother).
 func c10IntOf(n json.Number) *big.Int {
@@ -901,6 +993,15 @@ func (c *c10Run) judge(in *c10Input, d *c10Decoder, mode string, v any, tree any
 		return
 	} else {
 		chk := c10Filled(d, tree, v)
+		if len(chk.findings) > 0 {
+			for _, alt := range c10RefAlternatives(in.text) {
+				if c2 := c10Filled(d, alt, v); len(c2.findings) == 0 {
+					chk = c2
+					rep.Count("not_claimed/repeated_or_other_case_member_names_read_differently", 1)
+					break
+				}
+			}
+		}
 		for n, k := range chk.notes {
 			rep.Count("not_claimed/"+n, int64(k))
 		}
